@@ -44,6 +44,8 @@ class _Scan(ast.NodeVisitor):
         self.params = [[]]           # per function: positional parameter names
         self.param_writes = []       # (index into sites, function simple name, parameter position)
         self.calls = []              # (callee simple name, [is the k-th positional argument a private stream of the caller?])
+        self.cli_args = []           # argparse options of the command-line tools: (file, function, option strings, required, default)
+        self.assigned_attrs = []     # assignments to attributes of an argparse namespace (args.x = …): a default by other means
 
     # ---- scopes
     def _func(self, node):
@@ -96,6 +98,9 @@ class _Scan(ast.NodeVisitor):
         return isinstance(v, ast.Call) and _dotted(v.func) in ("io.BytesIO", "BytesIO", "io.StringIO", "StringIO")
 
     def visit_Assign(self, node):
+        for t in node.targets:
+            if isinstance(t, ast.Attribute) and isinstance(t.value, ast.Name) and t.value.id == "args":
+                self.cli_args.append((self.rel, ".".join(self.scope) or "<module>", "assign:args." + t.attr, "", _dotted(node.value)[:60], ""))
         if self._is_bytesio(node.value):
             for t in node.targets:
                 if isinstance(t, ast.Name):
@@ -181,6 +186,12 @@ class _Scan(ast.NodeVisitor):
             a = node.args[0] if node.args else None
             ok = isinstance(a, ast.Call) and isinstance(a.func, ast.Attribute) and a.func.attr in ("read", "readoffset")
             kind = "memoryview-of-read" if ok else "memoryview-other"
+        if meth == "add_argument":
+            opts = "|".join(a.value for a in node.args if isinstance(a, ast.Constant) and isinstance(a.value, str))
+            kw = {k.arg: _dotted(k.value) for k in node.keywords if k.arg}
+            self.cli_args.append((self.rel, fn, opts, kw.get("required", "False"), kw.get("default", ""), kw.get("nargs", "")))
+        if meth in ("set_defaults",):
+            self.cli_args.append((self.rel, fn, "set_defaults", "", ",".join(sorted(k.arg or "**" for k in node.keywords)), ""))
         if meth and not isinstance(node.func, ast.Call):
             self.calls.append((meth, [isinstance(a, ast.Name) and a.id in self.priv[-1] for a in node.args]))
         if any(k.arg == "output" for k in node.keywords):
@@ -197,6 +208,7 @@ class _Scan(ast.NodeVisitor):
 def scan_repo(repo):
     root = Path(repo) / "dissect" / "hypervisor"
     sites, xcalls, ximps = [], [], []
+    scan_repo.cli = []
     for p in sorted(root.rglob("*.py")):
         rel = str(p.relative_to(root))
         try:
@@ -213,6 +225,7 @@ def scan_repo(repo):
             r = s.sites[idx]
             s.sites[idx] = (r[0], r[1], r[2], "write-private-via-param" if ok else "write-foreign", r[4])
         sites += s.sites
+        scan_repo.cli += s.cli_args
         xcalls += s.xml_calls
         ximps += s.xml_imports
     return sites, xcalls, ximps
@@ -229,6 +242,10 @@ def extract_more(w, problems, get, func_literals, guid_bytes_le):
     w.raw("def sites : List (String × String × String × String × String) := [\n  " +
           ",\n  ".join("(" + ", ".join(_ls(v) for v in s) + ")" for s in sites) + "]")
     w.fp["effects.sites"] = [list(s) for s in sites]
+    cli = [c for c in scan_repo.cli if c[0].startswith("tools/")]
+    w.raw("def cliArgs : List (String × String × String × String × String × String) := [\n  " +
+          ",\n  ".join("(" + ", ".join(_ls(v) for v in c) + ")" for c in cli) + "]")
+    w.fp["effects.cliArgs"] = [list(c) for c in cli]
     w.end("effects")
     w.ns("xml")
     w.raw("def entrypoints : List (String × String × String × String × String × Bool) := [\n  " +
